@@ -16,6 +16,7 @@ import (
 	"runtime/debug"
 	"sort"
 	"strings"
+	"time"
 )
 
 // Runner executes one case (the op's arguments) against the real code.
@@ -31,7 +32,22 @@ var (
 	crashy = map[string]bool{}
 )
 
-func runCase(line string) (out string) {
+// caseTimeout bounds one case: the real code looping or blocking forever is an observation ("TIMEOUT"),
+// not a hung check. The abandoned goroutine is left behind.
+var caseTimeout = 20 * time.Second
+
+func runCase(line string) string {
+	ch := make(chan string, 1)
+	go func() { ch <- runCaseNow(line) }()
+	select {
+	case out := <-ch:
+		return out
+	case <-time.After(caseTimeout):
+		return "TIMEOUT the case did not finish within " + caseTimeout.String()
+	}
+}
+
+func runCaseNow(line string) (out string) {
 	defer func() {
 		if r := recover(); r != nil {
 			out = fmt.Sprintf("PANIC %v", strings.ReplaceAll(fmt.Sprint(r), "\n", " "))
@@ -106,7 +122,13 @@ func main() {
 				fmt.Fprintf(w, "#RUN %s\n", line)
 				w.Flush()
 			}
-			fmt.Fprintf(w, "%s\t%s\n", line, runCase(line))
+			out := runCase(line)
+			fmt.Fprintf(w, "%s\t%s\n", line, out)
+			if strings.HasPrefix(out, "TIMEOUT") {
+				// the abandoned goroutine may be spinning: report this case and stop generating
+				w.Flush()
+				os.Exit(0)
+			}
 		})
 	default:
 		os.Exit(2)
